@@ -236,8 +236,84 @@ fn gen_bursts(len: usize, count: u64, seed: u64) {
     }
 }
 
+/// Eager use (sync() after every call) with a weigher and expiry: entries of different ages,
+/// then every sequence of `len` calls among weight-changing updates and gets, so that one
+/// maintenance run both applies a growth and purges what has just expired.
+fn gen_grow(len: usize, count: u64, seed: u64) {
+    use std::io::Write;
+    let out = std::io::stdout();
+    let mut o = std::io::BufWriter::new(out.lock());
+    let mut alphabet: Vec<Value> = Vec::new();
+    for k in 1..=3u32 {
+        for w in [1u32, 2, 3] {
+            alphabet.push(json!({"op": "Insert", "k": k, "w": w}));
+        }
+        alphabet.push(json!({"op": "Get", "k": k}));
+    }
+    let total = (alphabet.len() as u64).pow(len as u32) * 8;
+    let mut rng = Rng::new(seed);
+    let mut id = 0u64;
+    for cap in [3i64, 4] {
+        for (ttl, ia) in [(2i64, false), (-1, true)] {
+            let n = if total <= count { total } else { count };
+            for j in 0..n {
+                let mut code = if total <= count { j } else { rng.below(total) };
+                let cfg = json!({"kind": "sync", "cap": cap, "ttl": ttl, "tti": -1, "weigher": true,
+                    "hasher": "id", "nkeys": 3, "lean": false, "seed": 0});
+                let mut ops: Vec<Value> = Vec::new();
+                let mut vid = 1u32;
+                let mut w3 = [0u32; 3];
+                for x in w3.iter_mut() {
+                    *x = 1 + (code % 2) as u32;
+                    code /= 2;
+                }
+                let mut ins = |ops: &mut Vec<Value>, k: u32, w: u32, vid: &mut u32| {
+                    ops.push(json!({"op": "Insert", "k": k, "v": *vid, "w": w}));
+                    *vid += 1;
+                    ops.push(json!({"op": "Sync"}));
+                };
+                ins(&mut ops, 1, w3[0], &mut vid);
+                ops.push(json!({"op": "Advance", "d": 1}));
+                ins(&mut ops, 2, w3[1], &mut vid);
+                ins(&mut ops, 3, w3[2], &mut vid);
+                if ia {
+                    // key 1 is older than the invalidation, keys 2 and 3 are refreshed after it
+                    ops.push(json!({"op": "Advance", "d": 1}));
+                    ops.push(json!({"op": "InvalidateAll"}));
+                    ops.push(json!({"op": "Advance", "d": 1}));
+                    ins(&mut ops, 2, w3[1], &mut vid);
+                    ins(&mut ops, 3, w3[2], &mut vid);
+                } else {
+                    ops.push(json!({"op": "Advance", "d": 1}));
+                }
+                for _ in 0..len {
+                    let a = alphabet[(code % alphabet.len() as u64) as usize].clone();
+                    code /= alphabet.len() as u64;
+                    if a["op"] == "Insert" {
+                        ops.push(json!({"op": "Insert", "k": a["k"], "v": vid, "w": a["w"]}));
+                        vid += 1;
+                    } else {
+                        ops.push(a);
+                    }
+                    ops.push(json!({"op": "Sync"}));
+                }
+                for k in 1..=3u32 {
+                    ops.push(json!({"op": "Get", "k": k}));
+                    ops.push(json!({"op": "Sync"}));
+                }
+                writeln!(o, "{}", json!({"id": id, "cfg": cfg, "ops": ops})).unwrap();
+                id += 1;
+            }
+        }
+    }
+}
+
 pub fn cmd_gen(args: &[String]) {
     // gen <profile> <seed> <count> <len>
+    if args[0] == "sync-grow" {
+        gen_grow(args[3].parse().unwrap(), args[2].parse().unwrap(), args[1].parse().unwrap());
+        return;
+    }
     if args[0] == "sync-burst" {
         gen_bursts(args[3].parse().unwrap(), args[2].parse().unwrap(), args[1].parse().unwrap());
         return;
